@@ -366,7 +366,7 @@ def oracle_public(ctx, count):
         its = rng.choice([0, 1, 1, 2, 3])
         if it % 5 == 3:
             its = 2 + (it // 5) % 2          # zero guess AND several iterations (first-iteration shortcuts must not persist)
-        om = rng.choice([1.0, 0.5, 1.5, 4.0 / 3.0])
+        om = rng.choice([1.0, 0.5, 1.5, 4.0 / 3.0, 1.0 + 2.0 ** -17, 1.0 - 2.0 ** -18])     # (weights next to one are weights)
         bs = rng.choice([d for d in (1, 2, 3) if n % d == 0])
         if n in (8, 14) and it % 2 == 0:
             bs = 8 if n == 8 else 7            # large blocks (the block-inverse routine switches method at 7)
